@@ -167,6 +167,13 @@ def run(chk, replay=None):
                 w = w2 if (two and rng.random() < 0.5) else w1
                 srcs.append((tk[0], w))
                 ll = ' '.join(ll.split()[:-1] + [gen_netlist.fs(w)])
+                ltk = ll.split()
+                if len(ltk) == 7 and ltk[3] == 'ac' and ltk[5] == '0' and rng.random() < 0.3:
+                    # the documented named form `ac V omega=w` (no phase): the same source
+                    ll = ' '.join(ltk[:5] + ['omega=%s' % gen_netlist.fs(w)])
+                    chk.count('source-form', 'ac-named-omega')
+                elif len(ltk) == 7 and ltk[5] != '0':
+                    chk.count('source-form', 'ac-with-phase:' + tk[0][0])
                 if rng.random() < 0.35:
                     # the same source written as a time-domain expression with a cos AND a sin term of one frequency
                     # (model: the phasor a - j b as the source amplitude)
